@@ -8,8 +8,11 @@ import (
 	owasm "github.com/bandprotocol/go-owasm/api"
 	"github.com/bytecodealliance/wasmtime-go/v20"
 
+	"github.com/bandprotocol/chain/v3/pkg/filecache"
 	oracletypes "github.com/bandprotocol/chain/v3/x/oracle/types"
 )
+
+var filecacheNew = filecache.New
 
 var (
 	vmOnce sync.Once
@@ -117,4 +120,8 @@ func ScriptEcho(dsID int) []byte {
  (memory (export "memory") 17)
  (data (i32.const 1024) "test"))
 `, dsID))
+}
+
+func addFile(home string, data []byte) {
+	filecacheNew(home + "/files").AddFile(data)
 }
